@@ -2,7 +2,7 @@
   Driver.LedgerProto — line protocol of the resource-discipline model (C08 / C09 / C10), see harness/ledger.cpp.
 
     prog <k> <seed>
-    cfg <E|I> <D> <pocca> <pocma> <pocs> <iae> <socc> <pmr> <fixes>
+    cfg <E|I|S|F> <D> <pocca> <pocma> <pocs> <iae> <socc> <pmr> <fixes>
     fault <k>|none
     x <op> <args…>
     end
@@ -195,7 +195,8 @@ def endLine (d : DSt) (terminated : Bool) : List String :=
   if terminated then [] else
   let s := d.st
   let nb := (s.blocks.filter (!·.freed)).length
-  let nl := if d.observe then (s.blocks.map liveCount).sum else 0
+  -- live objects: those in outstanding blocks (objects of a trivially destructible type end with their storage)
+  let nl := if d.observe then ((s.blocks.filter (!·.freed)).map liveCount).sum else 0
   let anyAlive := s.arrs.any (·.isSome)
   let body :=
     if d.halted then " halted"
@@ -220,9 +221,11 @@ def step (l : Loop) (line : String) : Loop × List String :=
     let fixes := match rest with | f :: _ => f.splitOn "," | [] => []
     let isPmr := b pmr
     let trivial := e == "I"
+    -- "S": logged construction, trivial destructor;  "F": destruction declared skippable (force_element_trivial_destruction)
+    let semi := e == "S" || e == "F"
     let cfg : Cfg := {
       dim := dd.toNat!, pocca := !isPmr && b pocca, pocma := !isPmr && b pocma, pocs := !isPmr && b pocs, iae := !isPmr && b iae,
-      socc := if isPmr then 2 else socc.toNat!, trivCtor := trivial, trivDtor := trivial, elemThrows := !trivial,
+      socc := if isPmr then 2 else socc.toNat!, trivCtor := trivial, trivDtor := trivial || semi, elemThrows := !trivial,
       fx6 := fixes.contains "F6", fx7 := fixes.contains "F7", fx8 := fixes.contains "F8", fx9 := fixes.contains "F9", fx9a := fixes.contains "F9a", fx9c := fixes.contains "F9c" }
     ({ l with d := { l.d with cfg := cfg, observe := !trivial } }, [])
   | ["fault", k] =>
